@@ -9,6 +9,7 @@ import (
 	"time"
 
 	"tsim/kernel"
+	"tsim/node"
 	"tsim/xr"
 )
 
@@ -26,7 +27,7 @@ func registry() *kernel.Registry {
 		{"Tendermint consensus/p2p/mempool (simulator drives ABCI directly; headers signed by a validator stub with real ed25519 keys)",
 			"off-chain relayers, users, adversary, governance actor (simulator actors)"},
 	}
-	for _, p := range []string{"C01", "C02", "C03", "C04", "C05", "C06", "C13", "C19"} {
+	for _, p := range []string{"C01", "C02", "C03", "C04", "C05", "C06", "C13", "C14", "C19"} {
 		reg.Serves[p] = append(reg.Serves[p], "xr")
 	}
 	xr.Register(reg)
@@ -72,6 +73,16 @@ func main() {
 			quiet, path = true, os.Args[3]
 		}
 		os.Exit(kernel.Replay(reg, path, quiet))
+	case "replica":
+		node.ReplicaMain(os.Args[2])
+	case "fp":
+		base, _ := strconv.ParseInt(os.Args[4], 10, 64)
+		i, _ := strconv.Atoi(os.Args[5])
+		_, res := kernel.RunOne(reg.Scenarios[os.Args[2]], base, os.Args[3], "quick", i, false)
+		fmt.Printf("%s %s %d %s\n", res.LogHash, res.SchedHash, len(res.Violations), res.Harness)
+	case "selftest":
+		n, _ := strconv.Atoi(os.Args[3])
+		os.Exit(kernel.SelfTestDeterminism(reg, os.Args[2], n))
 	case "one":
 		seed, _ := strconv.ParseInt(os.Args[2], 10, 64)
 		i, _ := strconv.Atoi(os.Args[3])
